@@ -1,0 +1,38 @@
+/// Maximum JSON nesting depth accepted from clients (STORE payloads, HTTP JSON commands).
+pub const MAX_JSON_NESTING: usize = 64;
+
+/// Returns true if `bytes` opens more than `max` nested objects/arrays.
+///
+/// sonic_rs (like serde_json) deserializes recursively and has no depth limit, so
+/// the nesting of untrusted input becomes native stack depth. This is a single
+/// non-recursive pass that counts `{` / `[` outside of string literals (honouring
+/// `\"` escapes); it does not validate the JSON.
+pub fn json_nesting_exceeds(bytes: &[u8], max: usize) -> bool {
+    let mut depth = 0usize;
+    let mut in_string = false;
+    let mut escaped = false;
+    for &b in bytes {
+        if in_string {
+            if escaped {
+                escaped = false;
+            } else if b == b'\\' {
+                escaped = true;
+            } else if b == b'"' {
+                in_string = false;
+            }
+            continue;
+        }
+        match b {
+            b'"' => in_string = true,
+            b'{' | b'[' => {
+                depth += 1;
+                if depth > max {
+                    return true;
+                }
+            }
+            b'}' | b']' => depth = depth.saturating_sub(1),
+            _ => {}
+        }
+    }
+    false
+}
